@@ -39,17 +39,21 @@ P = {
   note=TB + "SHA-256 is an executable reference validated against hashlib by the run, never unfolded in proofs.",
   tech="Lean 4 proof (algebraic laws over an opaque hash) + model/implementation correspondence"),
  'C03': dict(
-  text="PROVED for every transaction in wire range, every subscript that parses, every index incl. non-existing ones "
-       "and every Python-int hash type in int32 (negatives reduce mod 2^32; outside int32 struct.error): "
-       "FindAndDelete of OP_CODESEPARATOR = the other operations (push data untouched), RawSignatureHash as written "
+  text="PROVED for every transaction in wire range, every subscript that parses (shorter than 2^64 bytes), every "
+       "index incl. non-existing ones, and for RawSignatureHash every Python-int hash type in int32 (raw_eq_spec_int: "
+       "negatives reduce mod 2^32; outside int32 the two constant-one cases are still answered, otherwise "
+       "struct.error); the convenience-form theorems (wrapper_eq_spec, wrapper_raises_iff) are proved for the 256 "
+       "hash-type bytes (ht < 256): FindAndDelete of OP_CODESEPARATOR = the other operations (push data untouched), RawSignatureHash as written "
        "(scratch copy, blanking, list surgery) = Bitcoin Core's on-the-fly serializer digest incl. the HASH_ONE "
        "cases (raw_eq_spec, err_iff); the convenience form returns that digest or raises ValueError iff err — stated "
        "for the property-conforming wrapper; the shipped wrapper additionally asserts on witness-program-SHAPED "
        "subscripts: KNOWN FINDING D17 (not repaired; the as-coded wrapper is modelled and tied too). 'Never changes "
        "the transaction' holds by purity of the model; its content is C09's sighash_keeps_objects and T2 "
        "(serialisation compared before/after, histories on one live object). Negative input indices are outside the "
-       "quantifier and not modelled here. T1: SIGHASH constants, the constant 'one' read behaviourally. T2: all 256 "
-       "hash types per case, standard template shapes as subscripts.",
+       "quantifier and not modelled here. T1: SIGHASH_NONE/SINGLE/ANYONECANPAY, OP_CODESEPARATOR, the constant "
+       "'one' (read behaviourally; SIGVERSION values are evidence only). T2: all 256 hash types per case, standard "
+       "template shapes as subscripts, transactions with 253..1000 inputs/outputs at indices around 256; subscripts "
+       "that do not parse and hash types beyond a byte are out-of-domain observations, not compared strictly.",
   note=TB + "SHA-256d opaque.",
   tech="Lean 4 proof (Model = Spec for all hash types) + tables + correspondence (256 hash types exhaustive per case)"),
  'C04': dict(
@@ -57,7 +61,8 @@ P = {
        "int64 range and hash types in int32: witness-v0 SignatureHash = BIP143 digest (bip143_eq_spec) and is defined "
        "(no struct.error branch reachable: bip143_defined / bip143_no_pyexc); the digest ignores scriptSigs and "
        "witness. T2: all 256 hash types with lock time/sequence/amount at unsigned and signed edges, standard "
-       "template shapes as script codes, non-existing indices and out-of-range amounts (modelled error outcomes), "
+       "template shapes as script codes, out-of-domain inputs (non-existing index, amount None / negative / outside int64, hash types beyond a byte) "
+       "exercised as observations only (which error wins there is not constrained by the statement), "
        "histories on one live mutable object.",
   note=TB + "SHA-256d opaque. Negative input indices are outside the quantifier and not modelled.",
   tech="Lean 4 proof (Model = BIP143 Spec; definedness = dead error branches) + correspondence"),
@@ -156,8 +161,10 @@ P = {
  'C11': dict(
   text="PROVED: polymod = BIP173 BCH residue, checksum_verifies, convertbits padding rule and round trip, decode "
        "accepts ⇔ the declarative Spec.ValidSegwit, encode_decode for all versions/lengths, mixed case rejected, and "
-       "the code distance: any 1–4 substitutions anywhere in a valid ≤ 90-character address are rejected "
-       "(detects_le2, detects_le4 — both kernel-checked with the standard axioms: the weight-3/4 bound is reduced to "
+       "the code distance: a same-length string whose LOWER-CASE form differs from a valid ≤ 90-character address "
+       "in 1–4 places is rejected; after ≤ 4 character substitutions the result is rejected unless only letter case "
+       "changed (then mixed case is rejected, all-upper-case is the same address: mixed_case_rejected, "
+       "uppercase_accepted) (detects_le2, detects_le4 — both kernel-checked with the standard axioms: the weight-3/4 bound is reduced to "
        "963 `decide +kernel` shard theorems over a generated, untrusted look-up table whose coverage is itself a "
        "theorem). Truncation/extension/insertion/deletion: T2 only (the BCH code guarantees nothing there). T1: "
        "charset and generator read behaviourally. T2: every single substitution incl. non-ASCII code points with "
@@ -245,9 +252,13 @@ P = {
        "theorems carry AddrProto pv m); the implementation reads nVersion 10300 as 300 (KNOWN FINDING D24, mirrors "
        "Bitcoin Core) and never passes protover to the address parser, so sub-31402 address entries cannot be read "
        "back (KNOWN FINDING D25) — the model is conforming for both and each is recognised only when the "
-       "implementation's answer equals the model's with exactly that substitution. T1: the 17 commands "
-       "covered by messagemap, version constants, chain magic. T2: every single-byte corruption and truncation of "
-       "small frames under the four chains, histories on live objects (in-place edits, chain tours, stream reuse).",
+       "implementation's answer equals the model's with exactly that substitution. T1: the 17 command "
+       "strings exist, chain magic (version constants and class names are evidence, not obligations). T2: every "
+       "single-byte corruption and truncation of small frames under the four chains, histories on live objects "
+       "(in-place edits, chain tours, stream reuse, parse after a parse that raised). For REJECTED frames only what "
+       "the statement gives is compared: an error of the library's families (the truncation error where the frame "
+       "is truncated), nothing returned, position within the frame; returned messages are compared exactly (type, "
+       "fields, position at the frame end, re-framing).",
   note=TB,
   tech="Lean 4 proof (codec round trip with stream position, fault-class decision logic) + tables + correspondence"),
  'C19': dict(
